@@ -177,6 +177,9 @@ def violation_attrs(v):
         a["_ti"] = ti
     if hasattr(v, "insert_whitespace"):
         a["_iw"] = bool(v.insert_whitespace)
+    if "_tv" in a:
+        # the same value under the key the insert family (`…_using_value_from_token`) reads
+        a["__token_value"] = a["_tv"]
     return a
 
 
@@ -208,7 +211,7 @@ def wire(rawsnap, ci, ser):
 
 
 class Step:
-    __slots__ = ("rule", "kind", "before", "after", "edits", "tois", "remap", "exc", "fixable", "sev_error", "phase", "disabled", "wall", "changed", "index")
+    __slots__ = ("rule", "kind", "before", "after", "edits", "tois", "remap", "exc", "fixable", "sev_error", "phase", "disabled", "wall", "changed", "index", "params")
 
     def __init__(self):
         self.edits = None
@@ -218,6 +221,7 @@ class Step:
         self.after = None
         self.changed = False
         self.remap = None
+        self.params = None
 
 
 def instrumented_fix(oFile, rl, ci, fix_phase=7, skip_phase=None, fix_only=None, record_tois=False, on_step=None, harvest=False):
@@ -256,6 +260,10 @@ def instrumented_fix(oFile, rl, ci, fix_phase=7, skip_phase=None, fix_only=None,
                 )
             st.edits = ed
             st.remap = bUpdateMap
+            if harvest and ed and cur.get("rule") is not None:
+                # the rule's parameters AS THEY ARE NOW: parameter token objects are inserted into the
+                # file by some fixers and later mutated in place by the case rules
+                st.params = rule_params(cur["rule"], ci)
         return real_update(lUpdates, bUpdateMap)
 
     oFile.update = update
@@ -295,6 +303,7 @@ def instrumented_fix(oFile, rl, ci, fix_phase=7, skip_phase=None, fix_only=None,
         def fix(oF, dFixOnly=None):
             st = begin(oRule, "fix")
             cur["step"] = st
+            cur["rule"] = oRule
             t0 = time.time()
             try:
                 real_fix(oF, dFixOnly)
